@@ -92,6 +92,11 @@ func genC17(tier string, seed uint64) *simkit.Plan {
 	p.SetKnob("trailing", int64(one(r, 0, 2, 16)))
 	p.SetKnob("commit_retries", int64(r.Intn(3)))
 	p.SetKnob("latency_ms", int64(one(r, 1, 2, 10, 40)))
+	p.SetKnob("backups_rotate", int64(one(r, 1, 1, 2, 3, 6)))
+	// churn: the same slot leaves and comes back again and again (its data
+	// folder is cleaned into rotated backups each time)
+	churn := r.Chance(0.25)
+	churnSlot := r.Intn(slots)
 	ncids := r.Range(2, 6)
 	p.SetKnob("ncids", int64(ncids))
 	faulty := r.Chance(0.5)
@@ -155,6 +160,9 @@ func genC17(tier string, seed uint64) *simkit.Plan {
 			if len(non) > 0 && r.Chance(0.85) {
 				slot = non[r.Intn(len(non))]
 			}
+			if churn && !member[churnSlot] {
+				slot = churnSlot
+			}
 			op := "join"
 			if r.Chance(0.35) {
 				op = "peer_add"
@@ -165,6 +173,9 @@ func genC17(tier string, seed uint64) *simkit.Plan {
 			slot := pickMember()
 			if r.Chance(0.15) {
 				slot = r.Intn(slots)
+			}
+			if churn && member[churnSlot] && up[churnSlot] && r.Chance(0.8) {
+				slot = churnSlot
 			}
 			at := pickMember()
 			if r.Chance(0.25) {
@@ -381,7 +392,7 @@ func (w *world) mkRaftCfg(dir string, initPeers []peer.ID) *raft.Config {
 	cfg.CommitRetryDelay = 100 * time.Millisecond
 	cfg.WaitForLeaderTimeout = 5 * time.Second
 	cfg.NetworkTimeout = 3 * time.Second
-	cfg.BackupsRotate = 3
+	cfg.BackupsRotate = int(p.Knob("backups_rotate", 3))
 	return cfg
 }
 
@@ -584,6 +595,19 @@ func copyPins(m map[int]map[string]bool) map[int]map[string]bool {
 }
 
 func (w *world) quiet() bool { return w.faultsActive == 0 }
+
+// calm: no partition and every member is up.
+func (w *world) calm() bool {
+	if w.faultsActive != 0 {
+		return false
+	}
+	for i := 0; i < w.slots; i++ {
+		if w.member[i] != no && w.up(i) == nil {
+			return false
+		}
+	}
+	return true
+}
 
 // ------------------------------------------------------------------ execution
 
@@ -820,12 +844,15 @@ func (w *world) joinOp(s Step) {
 		if w.cur[s.Slot] != nil && !w.cur[s.Slot].alive && !w.cur[s.Slot].graceful {
 			return // crashed: start first
 		}
-		gen := 0
+		// the same machine again: same folders (what Clean left, and its backups)
+		base := filepath.Join(w.base, fmt.Sprintf("p%d-g0", s.Slot))
 		if w.cur[s.Slot] != nil {
-			gen = w.cur[s.Slot].gen + 1
+			base = w.cur[s.Slot].base
+			w.cur[s.Slot].host.Close()
+			w.net.Kill(s.Slot)
 		}
 		w.net.Uncut(s.Slot)
-		tgt = w.start(s.Slot, filepath.Join(w.base, fmt.Sprintf("p%d-g%d", s.Slot, gen)), true, nil)
+		tgt = w.start(s.Slot, base, true, nil)
 		for j := 0; j < w.slots; j++ {
 			if j != s.Slot && w.cur[j] != nil && w.cur[j].alive {
 				w.net.Connect(s.Slot, j)
@@ -839,7 +866,7 @@ func (w *world) joinOp(s Step) {
 		tgt.joinBefore = w.allowedAll()
 		tgt.joinTouched = map[int]bool{}
 	}
-	quietBefore := w.quiet()
+	quietBefore := w.calm()
 	var beforePeers []int
 	if was == yes {
 		beforePeers, _ = w.peersOf(at)
@@ -946,7 +973,7 @@ func (w *world) removeOp(s Step) {
 	}
 	run.Op()
 	was := w.member[s.Slot]
-	quietBefore := w.quiet() && w.count(maybe) == 0
+	quietBefore := w.calm() && w.count(maybe) == 0
 	tgt := w.up(s.Slot)
 	tgtUp := tgt != nil
 	beforePeers, _ := w.peersOf(at)
